@@ -8,6 +8,7 @@ import (
 	"path/filepath"
 	"runtime"
 	"sort"
+	"strconv"
 	"strings"
 	"sync"
 	"time"
@@ -65,15 +66,40 @@ func cmdCheck(argv []string) int {
 	verbose := fs.Bool("v", false, "print every obligation")
 	out := fs.String("json", "", "write full results as JSON to this file")
 	quickT := fs.Int("t1", 4, "first-stage solver timeout (s)")
-	slowT := fs.Int("t2", 20, "portfolio solver timeout (s)")
+	slowT := fs.Int("t2", 25, "portfolio solver timeout (s)")
+	evidence := fs.String("evidence", "", "write the evidence file here")
+	knownPath := fs.String("known", "/verif/known_findings.json", "known findings file")
+	replayDir := fs.String("replaydir", "/verif/evidence/replay", "directory for replay files")
+	agree := fs.Bool("agree", false, "require unsat from two different solvers (thorough)")
 	fs.Parse(argv)
-	_ = tier
+	if *tier == "thorough" {
+		*agree = true
+		if *slowT < 60 {
+			*slowT = 60
+		}
+	}
+	seed := 0
+	if s := os.Getenv("VERIF_SEED"); s != "" {
+		seed, _ = strconv.Atoi(s)
+	}
 	t0 := time.Now()
 	eng, err := LoadEngine(*repo, *prelude)
-	if err != nil {
-		fmt.Fprintln(os.Stderr, "govc:", err)
+	rs := &runSummary{prop: *prop, tier: *tier, seed: seed, replayDir: *replayDir, evidenceOut: *evidence,
+		cmdline: "/verif/bin/govc check " + strings.Join(argv, " ")}
+	known, kerr := loadKnown(*knownPath)
+	if kerr != nil {
+		fmt.Fprintln(os.Stderr, "govc:", kerr)
 		return 2
 	}
+	rs.known = known
+	if err != nil {
+		fmt.Fprintln(os.Stderr, "govc:", err)
+		rs.genErrs = append(rs.genErrs, "loading /repo failed: "+err.Error())
+		rs.eng = &Engine{ct: &ContractTable{ByKey: map[string]*Contract{}}, prelude: &Prelude{}}
+		rs.wall = time.Since(t0).Seconds()
+		return rs.finish()
+	}
+	rs.eng = eng
 	loadT := time.Since(t0)
 	initSolve()
 	defer cleanupSolve()
@@ -91,15 +117,16 @@ func cmdCheck(argv []string) int {
 		cons = append(cons, c)
 	}
 	sort.Slice(cons, func(i, j int) bool { return cons[i].Key < cons[j].Key })
+	if len(cons) == 0 && *fnFilter == "" {
+		rs.genErrs = append(rs.genErrs, "no function under contract serves property "+*prop)
+	}
 	var results []*OblResult
-	var vcs []*VC
-	genErr := false
 	t1 := time.Now()
 	for _, c := range cons {
 		vc, err := func() (vc *VC, err error) {
 			defer func() {
 				if r := recover(); r != nil {
-					buf := make([]byte, 4096)
+					buf := make([]byte, 6000)
 					n := runtime.Stack(buf, false)
 					err = fmt.Errorf("engine panic while verifying %s: %v\n%s", c.Key, r, buf[:n])
 				}
@@ -108,17 +135,21 @@ func cmdCheck(argv []string) int {
 		}()
 		if err != nil {
 			fmt.Fprintln(os.Stderr, "govc:", err)
-			genErr = true
-			results = append(results, &OblResult{Func: c.Key, Name: "generation", Kind: "engine", Expect: "unsat", Status: "error", Src: err.Error()})
+			rs.genErrs = append(rs.genErrs, err.Error())
 			continue
 		}
-		vcs = append(vcs, vc)
+		rs.vcs = append(rs.vcs, vc)
+		n := 0
 		for _, o := range vc.obls {
 			if *prop != "all" && len(o.Tags) > 0 && !hasTag(o.Tags, *prop) {
 				continue
 			}
 			q := vc.QueryText(o)
+			n++
 			results = append(results, &OblResult{Func: o.Func, Name: o.Name, Kind: o.Kind, Tags: o.Tags, Src: o.Src, Where: o.Where, Expect: o.Expect, Bytes: len(q), query: q})
+		}
+		if n == 0 {
+			rs.genErrs = append(rs.genErrs, "contract block of "+c.Key+" produced no obligation")
 		}
 	}
 	// vacuity guard for the trusted axioms: the prelude as a whole must not be refutable
@@ -146,9 +177,6 @@ func cmdCheck(argv []string) int {
 	var wg sync.WaitGroup
 	sem := make(chan struct{}, 16)
 	for _, r := range results {
-		if r.query == "" {
-			continue
-		}
 		r := r
 		wg.Add(1)
 		sem <- struct{}{}
@@ -156,6 +184,16 @@ func cmdCheck(argv []string) int {
 			defer wg.Done()
 			defer func() { <-sem }()
 			v := Solve(r.query, *quickT, *slowT, true)
+			if *agree && v.Status == "unsat" && r.Expect == "unsat" {
+				v2 := SolveOther(r.query, v.Solver, *slowT)
+				if v2.Status != "unsat" {
+					v = Verdict{Status: "unknown", Solver: v.Solver + "+" + v2.Solver, Seconds: v.Seconds + v2.Seconds,
+						Output: "second solver did not confirm unsat: " + v2.Status + " " + v2.Output}
+				} else {
+					v.Solver = v.Solver + "+" + v2.Solver
+					v.Seconds += v2.Seconds
+				}
+			}
 			r.Status = v.Status
 			r.Solver = v.Solver
 			r.Seconds = v.Seconds
@@ -165,19 +203,13 @@ func cmdCheck(argv []string) int {
 			if r.Expect == "unsat" {
 				r.OK = v.Status == "unsat"
 			} else {
-				r.OK = v.Status != "unsat"
+				r.OK = v.Status == "sat" || v.Status == "unknown"
 			}
 		}()
 	}
 	wg.Wait()
 	solveT := time.Since(t2)
-	nOK, nBad := 0, 0
 	for _, r := range results {
-		if r.OK {
-			nOK++
-		} else {
-			nBad++
-		}
 		if *verbose || !r.OK {
 			mark := "ok  "
 			if !r.OK {
@@ -186,13 +218,13 @@ func cmdCheck(argv []string) int {
 			fmt.Printf("%s %-8s %6.2fs %-10s %s  -- %s\n", mark, r.Status, r.Seconds, r.Solver, r.FullName(), r.Src)
 		}
 	}
-	fmt.Printf("functions=%d obligations=%d discharged=%d failed=%d load=%.1fs gen=%.1fs solve=%.1fs\n", len(cons), len(results), nOK, nBad, loadT.Seconds(), genT.Seconds(), solveT.Seconds())
+	fmt.Printf("load=%.1fs gen=%.1fs solve=%.1fs\n", loadT.Seconds(), genT.Seconds(), solveT.Seconds())
 	if *out != "" {
 		b, _ := json.MarshalIndent(results, "", " ")
 		os.WriteFile(*out, b, 0o644)
 	}
-	if nBad > 0 || genErr {
-		return 1
-	}
-	return 0
+	rs.results = results
+	rs.wall = time.Since(t0).Seconds()
+	rs.solveS = solveT.Seconds()
+	return rs.finish()
 }
